@@ -28,19 +28,27 @@ open Tfl
 
 /-! ## configuration records: the fields the builders read -/
 
+/-- the python type of a categorical `monotonicity` value: `list`, `tuple`, or any other iterable of
+pairs (`set`, `dict` keys, …); the
+calibrator builder tests `isinstance(…, (list, tuple))` (since f70b866; `list` only before).
+`verify_config` accepted every iterable (`np.iterable`) before fix e8dafc0 and only `list` / `tuple`
+since. -/
+inductive PairsKind where
+  | list | tuple | other
+  deriving DecidableEq, Repr, Inhabited
+
 /-- `FeatureConfig.monotonicity` as the builders see it.
 * `none`  : `0` or the string `'none'` in any capitalisation; for a categorical feature also `None`,
   `[]`, `()` (a numeric feature with `None` is rejected by `PWLCalibration.__init__`: not modelled);
 * `inc c` / `dec c` : a value `utils.canonicalize_monotonicity` maps to `1` / `-1`; `c` says that it
-  is spelled exactly `1`, `-1`, `'increasing'`, `'decreasing'` (what the literal list in
-  `build_rtl_layer` tests) rather than e.g. `'Increasing'`;
-* `pairs ps isList` : a NON-EMPTY iterable of category pairs; `isList` = it is a python `list`
-  (what `isinstance(feature_config.monotonicity, list)` tests) rather than e.g. a tuple. -/
+  is spelled exactly `1`, `-1`, `'increasing'`, `'decreasing'` rather than e.g. `'Increasing'` (only
+  the model VARIANT of the RTL rule before fix defc941 reads `c`);
+* `pairs ps k` : a NON-EMPTY iterable of category pairs of python type `k`. -/
 inductive MonoSpec where
   | none
   | inc (canon : Bool)
   | dec (canon : Bool)
-  | pairs (ps : List (Nat × Nat)) (isList : Bool)
+  | pairs (ps : List (Nat × Nat)) (k : PairsKind)
   deriving DecidableEq, Repr, Inhabited
 
 /-- `tfl.configs.FeatureConfig`, the fields read by `premade_lib` builders -/
@@ -196,14 +204,18 @@ def MonoSpec.canonical : MonoSpec → Except Err Int
   | .dec _ => .ok (-1)
   | .pairs _ _ => .error .valueError
 
-/-- `build_rtl_layer`: is the feature filed under `'increasing'`?
+/-- `build_rtl_layer` (since fix defc941): the feature is filed under `'increasing'` iff
+`_monotonicities_from_feature_configs([feature_config])[0]` is 1 — the rule of every other builder. -/
+def rtlIncreasing (f : Feature) : Bool := f.mono.truthy
+
+/-- the rule between fixes b13cb79 and defc941 (finding F-C03-d):
 `monotonicity in [1, -1, 'increasing', 'decreasing'] or (num_buckets and isinstance(monotonicity,
-list) and monotonicity)` (the second disjunct is fix b13cb79). -/
-def rtlIncreasing (f : Feature) : Bool :=
+list) and monotonicity)` -/
+def rtlIncreasingLiteral (f : Feature) : Bool :=
   match f.mono with
   | .inc c => c
   | .dec c => c
-  | .pairs ps isList => f.numBuckets != 0 && isList && !ps.isEmpty
+  | .pairs ps k => f.numBuckets != 0 && k == .list && !ps.isEmpty
   | .none => false
 
 /-- the rule before fix b13cb79 (finding F-C03-c) -/
@@ -212,6 +224,19 @@ def rtlIncreasingOld (f : Feature) : Bool :=
   | .inc c => c
   | .dec c => c
   | _ => false
+
+/-- which python types of a pairs value the calibrator builder honours:
+`isinstance(feature_config.monotonicity, (list, tuple))` (since fix f70b866) -/
+def pairsHonoured (k : PairsKind) : Bool := k != .other
+/-- before fix f70b866 (finding F-C03-e): `isinstance(feature_config.monotonicity, list)` -/
+def pairsHonouredOld (k : PairsKind) : Bool := k == .list
+
+/-- `monotonicities=` of the categorical calibrator, with the type test as a parameter -/
+def calPairsWith (honoured : PairsKind → Bool) (m : MonoSpec) : List (Nat × Nat) :=
+  match m with
+  | .pairs ps k => if honoured k then ps else []
+  | _ => []
+def calPairs (m : MonoSpec) : List (Nat × Nat) := calPairsWith pairsHonoured m
 
 inductive Range where
   | toLattice | modelOutput | toFinalCalibration
@@ -235,7 +260,7 @@ def mkCalibrator (c : ModelConfig) (r : Range) (i units : Nat) : Except Err Cali
     let rg := outputRange r c f
     if f.numBuckets != 0 then
       .ok { feature := i, categorical := true, units := units, mono := 0,
-            pairs := (match f.mono with | .pairs ps true => ps | _ => []),
+            pairs := calPairs f.mono,
             numBuckets := f.numBuckets, numKeypoints := 0, outMin := rg.1, outMax := rg.2,
             clampMin := false, clampMax := false, convexity := 0, missing := f.default,
             learned := false }
@@ -332,9 +357,18 @@ def sameLatticeSizes (c : ModelConfig) : Bool :=
 def noShapeExtras (c : ModelConfig) : Bool :=
   c.features.all (fun f => f.unimodality == 0 && f.trusts.isEmpty && f.dominates.isEmpty)
 
-/-- `_verify_feature_config` for a categorical feature: a truthy non-`'none'` monotonicity must be
-an iterable of iterables of bucket indices (an `int` or a string raises `ValueError`) -/
+/-- `_verify_feature_config` for a categorical feature (since fix e8dafc0): a truthy non-`'none'`
+monotonicity must be a `list` or `tuple` of iterables of bucket indices (an `int`, a string, a
+`set`, … raise `ValueError`) -/
 def verifyFeature (f : Feature) : Bool :=
+  if f.numBuckets = 0 then true
+  else match f.mono with
+    | .none => true
+    | .pairs ps k => ps.isEmpty || (k != .other && ps.all (fun p => p.1 < f.numBuckets && p.2 < f.numBuckets))
+    | _ => false
+
+/-- the check before fix e8dafc0 (finding F-C03-f): any iterable (`np.iterable`) was accepted -/
+def verifyFeatureOld (f : Feature) : Bool :=
   if f.numBuckets = 0 then true
   else match f.mono with
     | .none => true
@@ -456,6 +490,9 @@ def buildSpec (c : ModelConfig) : Except Err LayerGraph := buildSpecWith rtlIncr
 
 /-- model VARIANT with the RTL rule before fix b13cb79 (finding F-C03-c) -/
 def buildSpecOld (c : ModelConfig) : Except Err LayerGraph := buildSpecWith rtlIncreasingOld c
+
+/-- model VARIANT with the RTL rule between b13cb79 and defc941 (finding F-C03-d) -/
+def buildSpecLiteral (c : ModelConfig) : Except Err LayerGraph := buildSpecWith rtlIncreasingLiteral c
 
 /-! ## the abstract composite -/
 
